@@ -339,5 +339,7 @@ def check(chk, repo):
     check_predict_tracking(chk, rep, repo)
     check_mark_nodes(chk, rep, repo)
     check_prune(chk, rep, repo)
+    from ..common import check_model_premises
+    check_model_premises(rep, repo)
     chk.undecided += ["'highest accuracy among the iterations' as a numeric fact", "which samples are relevant (run-time)"]
     chk.assumptions += ["NumPy view/copy rules; X_* are 2-D feature arrays, Y_* 1-D label arrays (docstrings)"]
